@@ -440,7 +440,7 @@ static int visited_test_and_set(uint64_t fp, int p, int s_, int d)
     if (k == 0) k = 1;
     h = (long)(k & (uint64_t)(vcap - 1));
     while (visited[h]) { if (visited[h] == k) return 1; h = (h + 1) & (vcap - 1); }
-    if (vcount * 2 > vcap) { fprintf(stderr, "ENGINE: visited-state table full\n"); exit(2); }
+    if (vcount * 2 > vcap) { static int told; if (!told) { told = 1; fprintf(stderr, "note: visited-state table full (%ld states): no pruning from here on\n", vcount); } return 0; }      /* not an error: the exploration goes on unpruned until its deadline and is then reported as not exhaustive */
     visited[h] = k; vcount++;
     return 0;
 }
